@@ -3,6 +3,7 @@ package genlab
 import (
 	"encoding/json"
 	"fmt"
+	"github.com/go-swagger/go-swagger/generator"
 	"net/http"
 	"net/url"
 	"os"
@@ -398,6 +399,73 @@ func CheckC03(run *ev.Run) {
 	run.Trusted = append(run.Trusted, "genlab server lab", "the projection of the handler's parameter struct (encoding/json of the generated struct)")
 	run.Assume = append(run.Assume, "fragment: query, urlencoded formData and header parameters; path / body / multipart parameters, number and strfmt formats, patterns, defaults and nested arrays are not in the model (nor sent)",
 		"an optional parameter given with an empty value counts as not given (documented rule)", "an absent optional non-pointer field shows its zero value")
+	// the Go literal written for a default value (generator.GoLangOpts().ArrayInitializerFunc) against the Lean `render`
+	{
+		initFn := generator.GoLangOpts().ArrayInitializerFunc
+		alpha := []string{"a", "b", " ", "[", "]", "{", "}", ",", ":", "\"", "\\", "\n", "\t", "é", "1"}
+		word := func() string {
+			var b strings.Builder
+			for k := r.Intn(5); k >= 0; k-- {
+				b.WriteString(alpha[r.Intn(len(alpha))])
+			}
+			return b.String()
+		}
+		var gen func(d int) interface{}
+		gen = func(d int) interface{} {
+			switch k := r.Intn(6); {
+			case k < 2 || d <= 0:
+				return word()
+			case k == 2:
+				return float64(r.Intn(2000) - 1000)
+			case k == 3:
+				m := map[string]interface{}{}
+				for i := r.Intn(3); i > 0; i-- {
+					m[word()] = gen(d - 1)
+				}
+				return m
+			default:
+				l := []interface{}{}
+				for i := r.Intn(4); i > 0; i-- {
+					l = append(l, gen(d-1))
+				}
+				return l
+			}
+		}
+		nLit := 300
+		if run.Tier == "thorough" {
+			nLit = 5000
+		}
+		for i := 0; i < nLit; i++ {
+			v := gen(3)
+			real, err := initFn(v)
+			if err != nil {
+				continue
+			}
+			req, _ := json.Marshal(map[string]interface{}{"op": "text.initLiteral", "value": v})
+			out, merr := m.Call(req)
+			var mr struct {
+				R           string `json:"r"`
+				Out         string `json:"out"`
+				StructureOk bool   `json:"structureOk"`
+			}
+			if merr == nil {
+				_ = json.Unmarshal(out, &mr)
+			}
+			run.Traces++
+			run.Case("initLiteral|" + real)
+			rep := map[string]interface{}{"value": v, "real": real, "model": mr.Out}
+			if mr.R != "ok" {
+				run.Broken("corr:C03:driver", "model driver failed", rep)
+				continue
+			}
+			if mr.Out != real {
+				st["initLiteral-disagree"]++
+				run.Broken("corr:C03:initLiteral", "Lean `render` and goSliceInitializer disagree on the literal of a default value", rep)
+			} else {
+				st["initLiteral-agree"]++
+			}
+		}
+	}
 	for si := 0; si < nSpecs; si++ {
 		type opJ struct {
 			in, method, path string
